@@ -12,7 +12,7 @@ from ..errors import AnalysisError
 from ..model import ClassInfo, FuncInfo, dotted, src, walk_scope
 from ..report import Context
 from ..util import calls_in, dep_leaves, kwarg, reaching_events, returns_of
-from . import c17
+from . import c16, c17
 
 LEVEL_TEXT = (
     "Static analysis (no execution): a provenance typestate 'Grid' is computed for the value of every `return` of "
@@ -250,6 +250,8 @@ def run(ctx: Context) -> None:
     ctx.rule(c17.r2_digitize)
     # R3: row-count plumbing
     ctx.rule(r3_rows, base)
+    # surrogates return the first batch_size rows of a pool of candidate_pool_size rows: the pool must not be thinned before the prefix is taken
+    ctx.rule(c16.r2_surrogate)
 
 
 def r1_grid(ctx: Context, base: ClassInfo) -> None:
